@@ -248,6 +248,17 @@ def check(rep, an, tier):
                      msg=f"the hull volume is multiplied by a length scale raised to the AMBIENT dimension (extent "
                          f"{'⊗'.join(r_.d['val'].flat().tag('pow_by_extent'))} of the input): for a flat cloud, whose hull is measured inside "
                          f"its k-dimensional span, the result is off by scale**(d − k)")
+    # the content of the hull is its `.volume` in every dimension (area of a polygon, volume of a polytope); `.area` is the measure of
+    # its BOUNDARY (perimeter of a polygon, surface of a polytope) — homogeneous of degree k − 1, not k
+    ha = res_h.events("hull_area")
+    for ev in ha:
+        rep.violated("R-QTY", "the content of a hull is its volume attribute", where=ev.loc, construct=ev.text(), entry="compute_volume",
+                     config=res_h.config,
+                     msg="`.area` of a scipy ConvexHull is the measure of its boundary (the perimeter of a planar hull): a planar cloud — a "
+                         "trichromatic gamut after barycentric reduction — is reported with its perimeter instead of the area it encloses")
+    if not ha:
+        rep.holds("R-QTY", "the content of a hull is its volume attribute", where=res_h.fn.loc(), construct="hull branch of compute_volume",
+                  entry="compute_volume", config=res_h.config)
     if not bad:
         rep.holds("R-QTY", "the volume of a flat cloud scales with the dimension of its affine span", where=res_h.fn.loc(),
                   construct="hull branch of compute_volume", entry="compute_volume", config=res_h.config)
